@@ -13,7 +13,7 @@ import (
 	"github.com/openfga/openfga/internal/verifh/core"
 )
 
-const rule = "every tuple-iterator adapter of pkg/storage and internal/iterator x every tuple of input sequences (length <= 3, 3 ordered symbols a<b<c, unsorted/duplicate inputs where the doc allows them; ending in Done, in an injected non-Done error or in a context cancellation after k = 0..len items) x every filter/validator verdict table x every call script over {Next, Head, Stop} up to the tier's length, each followed by an epilogue (read to the end, Stop, Next, Head); judged by list-based specifications written from the doc comments. A case = (adapter, inputs, parameter, script); non-trivial = the inputs hold >= 2 items or an injected error; distinct = distinct (adapter, inputs, parameter)."
+const rule = "every tuple-iterator adapter of pkg/storage and internal/iterator x every tuple of input sequences (length <= 3, 3 ordered symbols a<b<c, unsorted/duplicate inputs where the doc allows them) x every way an input can end after k = 0..len items {Done; a generic error; the request context cancelled at that moment; its deadline passing at that moment; the values context.Canceled / context.DeadlineExceeded handed out under a live context; fmt.Errorf(%w) wrappings of both; an error that only prints like ErrIteratorDone} x every filter/validator verdict table x every call script over {Next, Head, Stop} up to the tier's length (plus scripts in which the caller's context is cancelled / times out between two calls), each followed by an epilogue (read to the end with Next, or with Head before every Next; Stop, Next, Head); judged by list-based specifications written from the doc comments: the results are a prefix of the specified sequence followed by the input's failure - never a value from beyond a failure, never ErrIteratorDone for a truncated sequence, for Next and for Head, also under a cancelled context. A case = (adapter, inputs, parameter, script); non-trivial = the inputs hold >= 2 items or a failing input; distinct = distinct (adapter, inputs, parameter)."
 
 // Run is the stand-alone entry point.
 func Run(o *core.Options) int {
@@ -84,6 +84,7 @@ type adStat struct {
 	Nontrivial int64 `json:"nontrivial_cases"`
 	Early      int64 `json:"input_error_surfaced_early_cases,omitempty"`
 	MultiStop  int64 `json:"input_stopped_more_than_once_cases,omitempty"`
+	PostCancel int64 `json:"calls_judged_under_cancelled_context,omitempty"`
 	Deviating  int64 `json:"deviating_cases,omitempty"`
 }
 
@@ -94,6 +95,18 @@ type collector struct {
 	open map[string]string
 	docs map[string]string
 	devs map[string]*devAgg // signature -> count and the smallest example (deterministic evidence and replay files)
+	kind map[string]int64   // failure kind -> cases in which an input (or the script) fails that way
+}
+
+func (c *collector) addKinds(k map[string]int64) {
+	c.mu.Lock()
+	defer c.mu.Unlock()
+	if c.kind == nil {
+		c.kind = map[string]int64{}
+	}
+	for n, v := range k {
+		c.kind[n] += v
+	}
 }
 
 // cand is one deviating case; rank orders candidates so that the recorded example does not depend on scheduling.
@@ -190,6 +203,7 @@ func (c *collector) add(name string, s adStat) {
 	t.Nontrivial += s.Nontrivial
 	t.Early += s.Early
 	t.MultiStop += s.MultiStop
+	t.PostCancel += s.PostCancel
 	t.Deviating += s.Deviating
 	c.mu.Unlock()
 }
@@ -243,14 +257,72 @@ func (c *collector) violate(ad *adapter, ins []InSpec, p int, script string, out
 	c.r.Violate(signature(ad.name, out.class), desc, cs)
 }
 
+// scriptSets: the call scripts of one adapter shape, by class of input tuple.
+type scriptSets struct {
+	base    []string // tuples whose inputs end in {Done, generic error, cancellation}: full scripts + Head-before-Next epilogues
+	extra   []string // tuples holding one of the further failure kinds: scripts two calls shorter + Head-before-Next epilogues
+	allDone []string // error-free tuples: base + scripts in which the caller's context is cancelled / times out
+}
+
+func withoutHead(in []string) []string {
+	var out []string
+	for _, s := range in {
+		if strings.IndexByte(s, 'H') < 0 && !strings.HasSuffix(s, "+") {
+			out = append(out, s)
+		}
+	}
+	return out
+}
+
+// cancelScripts: prefix over {Next, Head} of length <= pl (and Next^k up to kmax), then the context is cancelled (C)
+// or its deadline passes (T), then nothing or a Head; the epilogue reads on.
+func cancelScripts(pl, kmax int) []string {
+	pre := enumScripts("NH", pl)
+	for k := pl + 1; k <= kmax; k++ {
+		pre = append(pre, strings.Repeat("N", k))
+	}
+	var out []string
+	for _, p := range pre {
+		for _, c := range []string{"C", "T"} {
+			out = append(out, p+c, p+c+"H")
+		}
+	}
+	return out
+}
+
+func mkScriptSets(scriptLen, xLen, altLen, cancelPre, cancelMax int, headUnsupported bool) scriptSets {
+	alt := func(l int) []string {
+		var out []string
+		for _, s := range enumScripts("NH", l) { // a Stop in the script leaves no epilogue to vary
+			out = append(out, s+"+")
+		}
+		return out
+	}
+	var ss scriptSets
+	ss.base = append(enumScripts("NHS", scriptLen), alt(altLen)...)
+	ss.extra = append(enumScripts("NHS", xLen), alt(altLen)...)
+	cs := cancelScripts(cancelPre, cancelMax)
+	if headUnsupported {
+		// Head answers "not supported" whatever happens: the Head-centred additions would repeat the plain scripts
+		ss.base, ss.extra, cs = enumScripts("NHS", scriptLen), enumScripts("NHS", xLen), withoutHead(cs)
+	}
+	ss.allDone = append(append([]string(nil), ss.base...), cs...)
+	return ss
+}
+
 // RunInto performs the whole sequential enumeration and records into r (no Finish).
 func RunInto(o *core.Options, r *core.Report) {
 	maxLen, scriptLen, tripleLen := 3, 4, 2
 	if o.Thorough() {
 		maxLen, scriptLen, tripleLen = 3, 5, 3
 	}
-	scripts := enumScripts("NHS", scriptLen)
-	scripts3 := enumScripts("NHS", scriptLen-1) // 3-input adapters: scripts one call shorter
+	xLen, altLen, cancelPre := scriptLen-2, scriptLen-3, scriptLen-1
+	var sets [2][2]scriptSets // [3-input adapter][Head unsupported]
+	for hu := 0; hu < 2; hu++ {
+		sets[0][hu] = mkScriptSets(scriptLen, xLen, altLen, cancelPre, 6, hu == 1)
+		sets[1][hu] = mkScriptSets(scriptLen-1, xLen-1, altLen-1, cancelPre-1, 4, hu == 1) // 3-input adapters: scripts one call shorter
+	}
+	scripts, scripts3 := sets[0][0].base, sets[1][0].base
 	col := &collector{per: map[string]*adStat{}, r: r, open: map[string]string{}, docs: map[string]string{}}
 	ads := adapters()
 	only := os.Getenv("C23SEQ_ONLY") // development aid: restrict to adapters whose name contains the value
@@ -266,9 +338,12 @@ func RunInto(o *core.Options, r *core.Report) {
 	}
 
 	r.Assume(
-		"sequential half: bounds = input sequences of length <= "+fmt.Sprint(maxLen)+" over 3 ordered symbols (length <= "+fmt.Sprint(tripleLen)+" for 3-input adapters), scripts over {Next,Head,Stop} of length <= "+fmt.Sprint(scriptLen)+" ("+fmt.Sprint(len(scripts))+" scripts; 3-input adapters: "+fmt.Sprint(len(scripts3))+") plus the epilogue; quick runs iterator.NewFilteredIterator with two filter functions and iterator.FromChannel with two messages on sequences of length <= 2; thorough runs 1-input adapters with sequences of length <= 5 and 2-input adapters with length <= 4",
+		"sequential half: bounds = input sequences of length <= "+fmt.Sprint(maxLen)+" over 3 ordered symbols (length <= "+fmt.Sprint(tripleLen)+" for 3-input adapters), scripts over {Next,Head,Stop} of length <= "+fmt.Sprint(scriptLen)+" followed by the read-to-the-end epilogue, plus scripts over {Next,Head} of length <= "+fmt.Sprint(altLen)+" followed by the epilogue that calls Head before every Next ("+fmt.Sprint(len(scripts))+" scripts; 3-input adapters: "+fmt.Sprint(len(scripts3))+", one call shorter); quick runs iterator.NewFilteredIterator with two filter functions and iterator.FromChannel on sequences of length <= 2; thorough runs 1-input adapters with sequences of length <= 5 and 2-input adapters with length <= 4",
+		"failure kinds of an input after k items: the terminations {Done, generic error, request context cancelled at that moment} are combined freely over all inputs; each of the further kinds {request deadline passing at that moment, context.Canceled value, context.DeadlineExceeded value, fmt.Errorf(%w) wrapping of either, errors.New with ErrIteratorDone's text} is put into every single input position with the other inputs ending in Done, under every script of length <= "+fmt.Sprint(xLen)+" ("+fmt.Sprint(len(sets[0][0].extra))+" scripts incl. the Head-before-Next epilogues; 3-input adapters "+fmt.Sprint(len(sets[1][0].extra))+"); error-free input tuples additionally run "+fmt.Sprint(len(sets[0][0].allDone)-len(scripts))+" scripts (3-input: "+fmt.Sprint(len(sets[1][0].allDone)-len(scripts3))+") in which the caller cancels the context or its deadline passes after a {Next,Head} prefix of length <= "+fmt.Sprint(cancelPre)+" or after 4..6 Next calls; Msg.Err messages of iterator.FromChannel carry every error-value kind",
+		"the deadline context is a context.Context implementation of the harness whose Done() closes and whose Err() turns into context.DeadlineExceeded when the harness says so (no wall clock)",
 		"stub inputs behave like the repository's own iterators: a cancelled context wins, after Stop they answer Done, an injected error is sticky",
-		"aspects the doc comments leave open are not judged: the call at which an input error surfaces (only: never a value beyond it, never Done instead of it; earlier is tolerated and counted), every result after the first surfaced error or once the context is cancelled (except: Next/Head after Stop), which tuple represents a key in NewOrderedCombinedIterator, multiplicity of in-input duplicates in iterator.Merge, inputs violating a stated precondition (unsorted inputs of ordered merges), calling a filter function on (drop, error) combinations",
+		"under a cancelled request context a call may answer the context's error at any point and nothing is judged after it; a value must still be the next one of the specified sequence and Done is accepted only where the specified sequence is complete; not judged under a cancelled context: Next/Head after Stop, and iterator.FromChannel (its select between ctx.Done() and the source channel is decided by the runtime)",
+		"aspects the doc comments leave open are not judged: the call at which an input error surfaces (only: never a value beyond it, never Done instead of it; earlier is tolerated and counted), which error is reported when an input error and a filter error compete, every result after the first surfaced error (except: Next/Head after Stop), which tuple represents a key in NewOrderedCombinedIterator, multiplicity of in-input duplicates in iterator.Merge, inputs violating a stated precondition (unsorted inputs of ordered merges), calling a filter function on (drop, error) combinations",
 		"an input counts as closed when it was stopped or read to its Done (storage.RelationshipTupleReader.Read: 'close the TupleIterator, either by consuming the entire iterator or by closing it'); being stopped more than once is only counted",
 		"iterator.Error (a source without inputs whose Stop is documented nowhere) and the NextItemInSliceStreams helper are not covered",
 	)
@@ -276,11 +351,12 @@ func RunInto(o *core.Options, r *core.Report) {
 	type job struct {
 		ad    *adapter
 		ins   []InSpec // candidate list for every position
+		terms []int    // terms[i] = ins[i].term()
 		first int
 	}
 	var jobs []job
 	inputsFor := func(ad *adapter, ml int) []InSpec {
-		terms := []int{termDone, termErr, termCancel}
+		terms := allTerms
 		if ad.source {
 			terms = []int{termDone}
 		}
@@ -301,8 +377,12 @@ func RunInto(o *core.Options, r *core.Report) {
 			ml = 5
 		}
 		ins := inputsFor(ad, ml)
+		terms := make([]int, len(ins))
+		for i, in := range ins {
+			terms[i] = in.term()
+		}
 		for f := range ins {
-			jobs = append(jobs, job{ad, ins, f})
+			jobs = append(jobs, job{ad, ins, terms, f})
 		}
 		col.docs[ad.name] = ad.doc
 		if ad.open != "" {
@@ -324,21 +404,54 @@ func RunInto(o *core.Options, r *core.Report) {
 		tj := time.Now()
 		defer func() { perAd[jb.ad.name].Add(int64(time.Since(tj))) }()
 		ad := jb.ad
+		ss := &sets[0][0]
+		{
+			a3, hu := 0, 0
+			if ad.arity >= 3 {
+				a3 = 1
+			}
+			if ad.headUnsupported {
+				hu = 1
+			}
+			ss = &sets[a3][hu]
+		}
 		var st adStat
+		var kinds [numTerms]int64
+		var scriptCancel, scriptDeadline int64
 		devs := devLocal{}
 		cur := make([]InSpec, ad.arity)
-		cur[0] = jb.ins[jb.first]
-		var rec func(pos int)
-		rec = func(pos int) {
+		curT := make([]int, ad.arity)
+		var rec func(pos, extras, failing int)
+		rec = func(pos, extras, failing int) {
 			if pos < ad.arity {
-				for _, in := range jb.ins {
-					cur[pos] = in
-					rec(pos + 1)
+				for i, in := range jb.ins {
+					if pos == 0 && i != jb.first {
+						continue
+					}
+					t := jb.terms[i]
+					ex, fl := extras, failing
+					if isExtraTerm(t) {
+						ex++
+					} else if t != termDone {
+						fl++
+					}
+					if ex > 1 || (ex == 1 && fl > 0) {
+						continue // a further failure kind stands alone: the other inputs end in Done
+					}
+					cur[pos], curT[pos] = in, t
+					rec(pos+1, ex, fl)
 					if r.Expired() {
 						return
 					}
 				}
 				return
+			}
+			scs := ss.base
+			switch {
+			case extras > 0:
+				scs = ss.extra
+			case failing == 0 && !ad.racyUnderCancel:
+				scs = ss.allDone
 			}
 			nt := nontrivial(cur)
 			key := insKey(cur)
@@ -350,9 +463,12 @@ func RunInto(o *core.Options, r *core.Report) {
 				if nt {
 					r.Nontrivial(core.Hash(ad.name, key, fmt.Sprint(p)))
 				}
-				scs := scripts
-				if ad.arity >= 3 {
-					scs = scripts3
+				var seen [numTerms]bool
+				for _, t := range curT {
+					if t != termDone && !seen[t] {
+						seen[t] = true
+						kinds[t] += int64(len(scs))
+					}
 				}
 				for _, sc := range scs {
 					out := runCase(ad, cur, p, sc, nil)
@@ -366,6 +482,14 @@ func RunInto(o *core.Options, r *core.Report) {
 					if out.multi {
 						st.MultiStop++
 					}
+					st.PostCancel += int64(out.post)
+					if failing == 0 && extras == 0 {
+						if strings.IndexByte(sc, 'C') >= 0 {
+							scriptCancel++
+						} else if strings.IndexByte(sc, 'T') >= 0 {
+							scriptDeadline++
+						}
+					}
 					if out.class != "" {
 						st.Deviating++
 						ins2, p2, sc2, out2 := append([]InSpec(nil), cur...), p, sc, out
@@ -375,10 +499,17 @@ func RunInto(o *core.Options, r *core.Report) {
 				}
 			}
 		}
-		rec(1)
+		rec(0, 0, 0)
 		r.Eval(st.Cases)
 		col.add(ad.name, st)
 		col.merge(devs)
+		km := map[string]int64{"caller-cancels-between-calls": scriptCancel, "caller-deadline-passes-between-calls": scriptDeadline}
+		for t, n := range kinds {
+			if n > 0 {
+				km["input-ends-in-"+termNames[t]] = n
+			}
+		}
+		col.addKinds(km)
 	})
 
 	t1 := time.Now()
@@ -396,25 +527,31 @@ func RunInto(o *core.Options, r *core.Report) {
 		names = append(names, n)
 	}
 	sort.Strings(names)
-	var totIn, totNt int64
+	var totIn, totNt, totPost int64
 	for _, n := range names {
 		totIn += col.per[n].Inputs
 		totNt += col.per[n].Nontrivial
+		totPost += col.per[n].PostCancel
 	}
 	r.Set("seq_adapters_covered", names)
 	r.Set("seq_per_adapter", col.per)
 	r.Set("seq_scripts", len(scripts))
+	r.Set("seq_scripts_per_tuple_class", map[string]int{"failure_kinds_done_err_cancel": len(sets[0][0].base), "further_failure_kind": len(sets[0][0].extra), "error_free_incl_caller_cancellation": len(sets[0][0].allDone),
+		"3-input_failure_kinds_done_err_cancel": len(sets[1][0].base), "3-input_further_failure_kind": len(sets[1][0].extra), "3-input_error_free_incl_caller_cancellation": len(sets[1][0].allDone)})
 	r.Set("seq_script_max_len", scriptLen)
+	r.Set("seq_failure_kinds", termNames[1:])
+	r.Set("seq_cases_per_failure_kind", col.kind)
 	r.Set("seq_specified_from", col.docs)
 	r.Set("seq_left_open", col.open)
 	r.Count("seq_input_tuples", totIn)
 	r.Count("seq_nontrivial_cases", totNt)
+	r.Count("seq_calls_judged_under_cancelled_context", totPost)
 }
 
 func skipParam(ad *adapter, ins []InSpec, p int) bool {
 	if strings.HasPrefix(ad.name, "iterator.FromChannel") {
 		for i, in := range ins {
-			if p&(1<<i) != 0 && (in.Items != "" || in.Term != "done") {
+			if msgDigit(p, i) != 0 && (in.Items != "" || in.Term != "done") {
 				return true // an Err message ignores the input sequence: run it once
 			}
 		}
